@@ -15,7 +15,8 @@ DOCS = {
     "D1": "[x]: /u 't'\n\npara *em* `c`\n\n> q\n> - li\n\n| a | b |\n|---|---|\n| 1 | 2 |\n|| 3 |\n|| 3 |\n| 4 ||\n\n```py\ncode\n```\n\n"
           "para *em* `c`\n\n|| h |\n|---|---|\n|| 3 |\n",
     "D2": "use [x] and ![x] ~~s~~ \"q\" -- <b>h</b>\n\n1. one\n2. two\nlazy\n\n<div>\nraw\n</div>\n\n"
-          "[![b *c* `d`](/i \"t\")](/h) [e ![f ![g](/j)](/k) **h**](/l)\n",
+          "[![b *c* `d`](/i \"t\")](/h) [e ![f ![g](/j)](/k) **h**](/l)\n\n"
+          "<http://\u2603.net/> [p](https://b\u00fccher.example/\u00fc \"t\") <mailto:a@\u00e9.fr>\n",
     "D3": "# H [l](/a \"t\") ![i](/s)\n\nsetext\n===\n\n    code\n\n***\n\\* &amp; <http://x.y> line  \nbreak\n\n"
           "# H [l](/a \"t\") ![i](/s)\n\n\\* &amp; <http://x.y> &amp; [l](/a \"t\")\n",
 }
